@@ -32,6 +32,12 @@ def shards(tier, seed, quick_grids=1500, thorough_grids=60000, cat_quick='full')
     for i in range(nsh):
         out.append({'part': 'grids', 'n': ng // nsh + 1, 'sub': i})
     out.append({'part': 'multi', 'n': 60 if tier == 'quick' else 1500})
+    # the same round trips from two / three threads at once (each thread its own grid), under every schedule with few
+    # preemptions inside hszinc's own code: whatever the library keeps at module level is shared between them
+    out.append({'part': 'threads', 'threads': 2, 'bound': 1 if tier == 'quick' else 2, 'cap': 700 if tier == 'quick' else 20000, 'pick': 0})
+    out.append({'part': 'threads', 'threads': 2, 'bound': 1 if tier == 'quick' else 2, 'cap': 700 if tier == 'quick' else 20000, 'pick': 1})
+    out.append({'part': 'threads', 'threads': 3, 'bound': 1, 'cap': 700 if tier == 'quick' else 20000, 'pick': 2})
+    out.append({'part': 'threads', 'threads': 2, 'scalars': True, 'bound': 2, 'cap': 400 if tier == 'quick' else 6000})
     return out
 
 
@@ -148,8 +154,99 @@ def error_path(ctx, mod, n):
             return
 
 
+def thread_grids(mod, ctx, k, pick):
+    """k small grids with pairwise different content (seeded), each of which round-trips cleanly on its own."""
+    r = random.Random(ctx.seed * 1000003 + 303 + pick)
+    gen = D.Gen(r)
+    for kk, v in getattr(mod, 'GEN_OPTIONS', {}).items():
+        setattr(gen, kk, v)
+    out = []
+    tries = 0
+    while len(out) < k and tries < 400:
+        tries += 1
+        n = gen.grid(['3.0', '2.0', '3.0'][len(out) % 3], small=True, maxcols=3, maxrows=2)
+        if not all(mod.in_domain(x) for _, x in D.walk(n, 'top')):
+            continue
+        kinds = {x[0] for _, x in D.walk(n, 'top')}
+        if len(kinds) < 4:
+            continue
+        sym, detail, art = mod.judge_grid(n)
+        if sym or not isinstance(art.get('text'), str) or len(art['text']) > 500:
+            continue
+        out.append(n)
+    return out
+
+
+SCALAR_PAIRS = [
+    (('str', 'alpha'), ('str', 'beta')), (('uri', 'http://a/'), ('uri', 'http://b/')), (('ref', 'a', None), ('ref', 'b', None)),
+    (('ref', 'a', 'Dis A'), ('ref', 'b', 'Dis B')), (('bin', 'text/a'), ('bin', 'text/b')), (('num', 1.5, None), ('num', 2.5, None)),
+    (('num', 1.5, 'kg'), ('num', 2.5, 'm')), (('date', 2020, 1, 2), ('date', 2021, 3, 4)), (('time', 1, 2, 3, 0), ('time', 4, 5, 6, 7000)),
+    (('dt', (2020, 6, 1, 12, 0, 0, 0), 7200, 'Berlin'), ('dt', (2021, 1, 5, 3, 4, 5, 0), -18000, 'New_York')),
+    (('dt', (2020, 6, 1, 12, 0, 0, 0), 0, 'UTC'), ('dt', (2020, 6, 1, 12, 0, 0, 0), 3600, 'London')),
+    (('coord', 1.5, 2.5), ('coord', -3.5, 4.5)), (('xstr', 'Type', 'pa'), ('xstr', 'Other', 'pb')), (('bool', True), ('bool', False)),
+    (('list', (('str', 'la'), ('num', 1, None))), ('list', (('str', 'lb'), ('num', 2, None)))),
+    (('dict', (('k', ('str', 'da')),)), ('dict', (('k', ('str', 'db')),))),
+]
+
+
+def threads_scalars(mod, spec, ctx):
+    """Two threads, each writing and reading one scalar of the same kind: small enough for *every* single- and
+    double-preemption schedule, and a per-kind memo kept at module level is hit at once."""
+    from vf import threads as T
+    n_ok = 0
+    for a, b in SCALAR_PAIRS:
+        ver = '3.0'
+        if not (mod.in_domain(a) and mod.in_domain(b)):
+            continue
+        if mod.judge_scalar(a, ver)[0] or mod.judge_scalar(b, ver)[0]:
+            continue
+
+        def make_jobs(a=a, b=b):
+            def job(n):
+                sym, detail, art = mod.judge_scalar(n, ver)
+                return (sym, art.get('text'))
+            return [lambda: job(a), lambda: job(b)]
+        label = '%s-scalar/%s' % (mod.FMT, D.kind(a))
+        T.explore(ctx, label, make_jobs, spec['bound'], spec['cap'],
+                  {'part': 'schedule', 'format': mod.FMT, 'position': 'scalar', 'kind': D.kind(a)},
+                  {'type': 'threads', 'spec': spec, 'pair': [D.enc(a), D.enc(b)]})
+        n_ok += 1
+    ctx.count('scalar kinds run under thread schedules', n_ok)
+    ctx.sample({'thread_jobs': '%s scalars' % mod.FMT, 'kinds': n_ok})
+
+
+def threads_part(mod, spec, ctx, overrides=None):
+    from vf import threads as T
+    if spec.get('scalars'):
+        if overrides is None:
+            return threads_scalars(mod, spec, ctx)
+        return
+    ns = thread_grids(mod, ctx, spec['threads'], spec.get('pick', 0))
+    if len(ns) < spec['threads']:
+        ctx.inconc('could not build %d clean grids for the thread schedules' % spec['threads'])
+        return
+
+    def make_jobs():
+        def job(n):
+            sym, detail, art = mod.judge_grid(n)
+            return (sym, art.get('text'))
+        return [lambda n=n: job(n) for n in ns]
+    label = '%s-roundtrip/%d' % (mod.FMT, spec.get('pick', 0))
+    sig = {'part': 'schedule', 'format': mod.FMT, 'position': 'document', 'kind': 'grid'}
+    case = {'type': 'threads', 'spec': spec}
+    if overrides is not None:
+        T.replay(ctx, label, make_jobs, overrides, sig, case)
+        return
+    st = T.explore(ctx, label, make_jobs, spec['bound'], spec['cap'], sig, case)
+    if st:
+        ctx.sample({'thread_jobs': label, 'grids': [D.enc(n) for n in ns][:2], 'schedules': st['schedules'],
+                    'distinct_interleavings': len(st['fingerprints'])})
+
+
 def run_shard(mod, spec, ctx):
     part = spec['part']
+    if part == 'threads':
+        return threads_part(mod, spec, ctx)
     if part == 'scalars':
         cat = D.catalogue(spec['cat'])
         for n in cat:
@@ -348,6 +445,20 @@ def run_shard(mod, spec, ctx):
 
 def replay(mod, case, ctx):
     t = case.get('type')
+    if t == 'threads' and 'pair' in case:
+        from vf import threads as T
+        a, b = [D.dec(x) for x in case['pair']]
+
+        def make_jobs():
+            def job(n):
+                sym, detail, art = mod.judge_scalar(n, '3.0')
+                return (sym, art.get('text'))
+            return [lambda: job(a), lambda: job(b)]
+        T.replay(ctx, '%s-scalar/%s' % (mod.FMT, D.kind(a)), make_jobs, case.get('overrides', []),
+                 {'part': 'schedule', 'format': mod.FMT, 'position': 'scalar', 'kind': D.kind(a)}, case)
+        return
+    if t == 'threads':
+        return threads_part(mod, case['spec'], ctx, case.get('overrides', []))
     if t == 'scalar':
         n = D.dec(case['n'])
         sym, detail, art = mod.judge_scalar(n, case['ver'])
